@@ -32,6 +32,12 @@
 (*              the index that was used): overlapping failures skip members *)
 (*     "stopmember" "stopped" goes to the tier's current member, accepted  *)
 (*              or not (no repair proposed; recorded as a finding)         *)
+(* and two seeded faults of the UDP transport (design mutants that the     *)
+(* obligations must reject; MC_Announce_udp_mut_*.cfg):                    *)
+(*     "connid0" "connection established" is decided by connection id # 0  *)
+(*              instead of by the connect having completed                 *)
+(*     "errkeep" a transaction answered by an ERROR packet is not finished: *)
+(*              its datagram keeps being retransmitted                     *)
 (*                                                                         *)
 (* Trace_Announce.tla drives the MONITOR with events recorded from the     *)
 (* real code (harness/c15, harness/c16); the machine variables are idle    *)
@@ -59,7 +65,9 @@ vars  == <<cfg, mvars, xvars>>
 (*         cmin : client TrackerMinAnnounceInterval, unit, gslack (max slack of the gap),   *)
 (*         gapk : consecutive short gaps that violate C15.gap, timed : deadlines judged,    *)
 (*         bo   : initial back-off, lat : scripted latency budget, slk : slack of deadlines,*)
-(*         asis : SUBSET {"gap","tier","cancel"} (machine only) ]                           *)
+(*         asis : SUBSET {"gap","tier","cancel",...} (machine only),                        *)
+(*         cids : connection ids a UDP tracker may hand out (machine only; BEP 15 reserves  *)
+(*                no value: 0 is a legal id, and the id changes from connect to connect) ]  *)
 
 A == 1 .. Len(cfg.ann)
 T == 1 .. Len(cfg.tor)
@@ -77,7 +85,7 @@ Max2(x, y) == IF x >= y THEN x ELSE y
 
 MonA0(c) ==
     LET KK == 1 .. Len(c.trk) IN
-    [ run |-> FALSE, first |-> TRUE, csent |-> FALSE,
+    [ run |-> FALSE, first |-> TRUE, csent |-> FALSE, sseen |-> FALSE,   \* sseen: a "started" arrived in this run
       lastm |-> 0, lastres |-> "none", lastend |-> 0, evs |-> TRUE,
       succ |-> [k \in KK |-> 0],        \* learned cyclic order of the tier (0 = not seen yet)
       lastat |-> [k \in KK |-> -1],     \* arrival time of the previous announce at k
@@ -164,7 +172,9 @@ EvViol(m, k, e, gap, cin) ==
     \* ("completed" may be the first one to ARRIVE: the download can finish while "started" is still on its way, and
     \*  the announcer then cancels that request in favour of "completed")
     ELSE IF m.first /\ e.ev # "started" /\ ~(e.ev = "completed" /\ cin) THEN "C15.ev.started"
-    ELSE IF ~m.first /\ e.ev = "started" THEN "C15.ev.started.repeat"      \* at most one "started" per tracker per run
+    \* at most one "started" per tracker per run (when "completed" was the first to arrive, the "started" it overtook - the
+    \*  cancelled request was already on its way - may still arrive behind it: once)
+    ELSE IF ~m.first /\ e.ev = "started" /\ (m.sseen \/ ~m.csent) THEN "C15.ev.started.repeat"
     ELSE IF e.ev = "completed" /\ m.csent THEN "C15.ev.completed.twice"
     ELSE IF e.ev = "completed" /\ ~cin THEN "C15.ev.completed.notinrun"
     ELSE IF ShortGap(m, k, gap) /\ m.short[k] + 1 >= cfg.gapk THEN "C15.gap"
@@ -197,6 +207,7 @@ AnnUpdF(M, a, k, ev, now, gap) ==
     IN [M EXCEPT ![a] =
           [m EXCEPT !.first = IF m.run THEN FALSE ELSE @,
                     !.csent = @ \/ (m.run /\ ev = "completed"),
+                    !.sseen = @ \/ (m.run /\ ev = "started"),
                     !.succ = IF learn THEN [@ EXCEPT ![m.lastm] = k] ELSE @,
                     !.lastm = k, !.lastres = "open", !.lastend = now, !.evs = FALSE,
                     !.lastat = [@ EXCEPT ![k] = now],
@@ -239,7 +250,7 @@ StoppedF(M, a, k) == [M EXCEPT ![a] = [@ EXCEPT !.sdone = [@ EXCEPT ![k] = TRUE]
 
 StartF(M, t, now) ==
     [a \in A |-> IF a \in AnnOf(t)
-       THEN [M[a] EXCEPT !.run = TRUE, !.first = TRUE, !.csent = FALSE, !.lastm = 0, !.lastres = "none",
+       THEN [M[a] EXCEPT !.run = TRUE, !.first = TRUE, !.csent = FALSE, !.sseen = FALSE, !.lastm = 0, !.lastres = "none",
                          !.evs = TRUE, !.kev = [k \in K |-> TRUE], !.cnt = [k \in K |-> 0], !.short = [k \in K |-> 0],
                          !.nfail = 0, !.due = IF cfg.timed THEN now + cfg.lat + cfg.slk ELSE -1]
        ELSE M[a]]
@@ -296,7 +307,10 @@ Asis(x) == x \in cfg.asis
 IVals == cfg.ivals                 \* interval / min interval values a reply may carry (0 = absent)
 
 An0 == [st |-> "none", carm |-> FALSE, has |-> FALSE, iv |-> 0, miv |-> 0, need |-> FALSE, tmr |-> FALSE, gap |-> 0]
-NoConn == [st |-> "none", owner |-> 0]
+NoConn == [st |-> "none", owner |-> 0, id |-> 0]
+\* transport.go requestC branch: an announce is sent at once iff the destination's connect has COMPLETED (connectedAt set);
+\* otherwise it waits in the connection's request list, which is flushed exactly once, when the connect ends
+Established(c) == IF Asis("connid0") THEN c.st # "none" /\ c.id # 0 ELSE c.st = "connected"
 
 Load(t) == IF idx[t] >= NMem(t) THEN 0 ELSE idx[t]              \* tier.go loadIndex
 Cur(t)  == cfg.ann[t].ks[Load(t) + 1]
@@ -317,10 +331,12 @@ EvOf(t, ev) == [ev |-> ev, ih |-> cfg.tor[t].ih, pid |-> cfg.tor[t].pid, port |-
 \* the cancelled Announce returns an error -> tier CAS; a UDP connect owned by t is aborted and the
 \* requests of OTHER torrents waiting for it receive context.Canceled (transport.go connectDone branch)
 LiveRq(r) == r.ph \in {"conn", "sent", "cerr"}
+\* ("ghost": a transaction that was answered but - seeded fault "errkeep" - not finished; it dies with the announcer's context)
 CancelRq(t) ==
     LET aborted == {k \in K : uc[k].st = "connecting" /\ uc[k].owner = t}
     IN {IF r.t = t /\ LiveRq(r) THEN [r EXCEPT !.ph = "zombie"]      \* still inside Tier.Announce: returns an error later
-        ELSE IF r.k \in aborted /\ r.ph = "conn" THEN [r EXCEPT !.ph = "cerr", !.err = "canceled"] ELSE r : r \in rq}
+        ELSE IF r.k \in aborted /\ r.ph = "conn" THEN [r EXCEPT !.ph = "cerr", !.err = "canceled"] ELSE r
+        : r \in {x \in rq : ~(x.t = t /\ x.ph = "ghost")}}
 CancelUc(t) == [k \in K |-> IF uc[k].st = "connecting" /\ uc[k].owner = t THEN NoConn ELSE uc[k]]
 
 \* doAnnounce: a new request goes to the current member (rq0/uc0/ix0 = state after a possible cancel)
@@ -328,9 +344,9 @@ SendRq(t, ev, rq0, uc0, ix0) ==
     LET li == IF ix0[t] >= NMem(t) THEN 0 ELSE ix0[t]
         k == cfg.ann[t].ks[li + 1]
         udp == cfg.trk[k].udp
-        ph == IF udp /\ uc0[k].st # "connected" THEN "conn" ELSE "sent"
+        ph == IF udp /\ ~Established(uc0[k]) THEN "conn" ELSE "sent"
     IN /\ rq' = rq0 \cup {[t |-> t, k |-> k, li |-> li, ev |-> ev, ph |-> ph, err |-> ""]}
-       /\ uc' = IF udp /\ uc0[k].st = "none" THEN [uc0 EXCEPT ![k] = [st |-> "connecting", owner |-> t]] ELSE uc0
+       /\ uc' = IF udp /\ uc0[k].st = "none" THEN [uc0 EXCEPT ![k] = [st |-> "connecting", owner |-> t, id |-> 0]] ELSE uc0
        /\ idx' = ix0
 
 \* the monitor sees the announce (design level: at the moment it is issued; announcer a = torrent t)
@@ -424,7 +440,8 @@ Failed(x) == [x EXCEPT !.st = "notworking", !.tmr = TRUE, !.gap = cfg.bo]
 
 Reply(r) ==                                       \* the tracker answers a request that reached it
     /\ r \in rq /\ r.ph = "sent"
-    /\ rq' = rq \ {r}
+    \* (UDP: an ERROR packet finishes the transaction exactly like a data packet: transport.go readC branch, trx.cancel())
+    /\ rq' = IF ~up[r.k] /\ cfg.trk[r.k].udp /\ Asis("errkeep") THEN (rq \ {r}) \cup {[r EXCEPT !.ph = "ghost"]} ELSE rq \ {r}
     /\ IF up[r.k]
        THEN \E iv \in IVals, miv \in IVals :
               /\ an' = [an EXCEPT ![r.t] = Okd(@, iv, miv)]
@@ -438,7 +455,7 @@ Reply(r) ==                                       \* the tracker answers a reque
 ConnStep(k) ==                                    \* the UDP connect transaction ends
     /\ uc[k].st = "connecting"
     /\ IF up[k]
-       THEN /\ uc' = [uc EXCEPT ![k].st = "connected"]
+       THEN /\ \E id \in cfg.cids : uc' = [uc EXCEPT ![k].st = "connected", ![k].id = id]   \* the tracker picks the id
             /\ rq' = {IF r.k = k /\ r.ph = "conn" THEN [r EXCEPT !.ph = "sent"] ELSE r : r \in rq}
        ELSE /\ uc' = [uc EXCEPT ![k] = NoConn]
             /\ rq' = {IF r.k = k /\ r.ph = "conn" THEN [r EXCEPT !.ph = "cerr", !.err = "other"] ELSE r : r \in rq}
@@ -460,6 +477,14 @@ DeliverErr(r) ==                                  \* a waiting request is told t
             /\ mon' = TRetF(ResUpd(mon, r.t, r.k, "fail", 0, 0, 0, 0), r.t, cfg.ann[r.t].ks, r.li, FALSE)
     /\ UNCHANGED <<cfg, mt, mk, viol, tor, up, uc>>
 
+\* BEP 15 retransmission timer (udptracker/backoff.go, retryTransaction): the datagram of a transaction is sent again while the
+\* transaction is outstanding.  The tracker sees a datagram with a known transaction id (monitor: RtxViol): same bytes, and
+\* never for a transaction it has already answered - by data OR by an error packet.
+Retransmit(r) ==
+    /\ r \in rq /\ cfg.trk[r.k].udp /\ r.ph \in {"sent", "ghost"}
+    /\ viol' = IF viol # "" THEN viol ELSE First(RtxViol(TRUE, r.ph = "ghost"))
+    /\ UNCHANGED <<cfg, mon, mt, mk, xvars>>
+
 Flip(k) ==                                        \* environment: a tracker starts / stops answering
     /\ up' = [up EXCEPT ![k] = ~up[k]]
     /\ mk' = [mk EXCEPT ![k] = ~up[k]]
@@ -479,6 +504,9 @@ NoLostAnnounce == \A t \in T : (tor[t].run /\ an[t].st = "contacting") => \E r \
 TimerArmed == \A t \in T : (tor[t].run /\ an[t].st \in {"working", "notworking"}) => an[t].tmr
 \* the tier can always advance: the stored index is a member position
 TierIndexOK == \A t \in T : idx[t] \in 0 .. (NMem(t) - 1)
+\* @obligation C16.retry.hang (design level)  an announce waits for a connection only while the connect is under way:
+\* nothing is parked behind an established (or vanished) connection, whatever connection id the tracker handed out
+NoParked == \A r \in rq : r.ph = "conn" => uc[r.k].st = "connecting"
 \* at most one live request per announcer
 OneRequest == \A t \in T : Cardinality({r \in rq : r.t = t /\ LiveRq(r)}) <= 1
 =============================================================================
